@@ -260,6 +260,9 @@ func addr(v reflect.Value) reflect.Value {
 
 // deserInto fills the value pointed to by ptr from bytes.
 func deserInto(ptr reflect.Value, b []byte) error {
+	// start from the zero value: ztyp's DecodingReader.ByteList keeps a longer existing slice and then reads
+	// past its scope (a dependency quirk when decoding into a used destination; not what is under test here)
+	ptr.Elem().Set(reflect.Zero(ptr.Elem().Type()))
 	if m := ptr.MethodByName("Deserialize"); m.IsValid() {
 		dr := codec.NewDecodingReader(bytes.NewReader(b), uint64(len(b)))
 		var out []reflect.Value
@@ -361,7 +364,14 @@ func unhx(s string) ([]byte, bool) {
 // ---------------------------------------------------------------------------------------------
 // random values
 
+// fillZero: when set, fill produces the zero value of every basic component (vectors keep their lengths,
+// lists keep nvals elements): the "default" state, where a stored component equals the zero of a new one.
+var fillZero bool
+
 func fill(rng *rand.Rand, v reflect.Value, nvals int) {
+	if fillZero {
+		rng = rand.New(zeroSource{})
+	}
 	t := v.Type()
 	vecLen := func(name string) int {
 		switch name {
@@ -447,6 +457,14 @@ func fill(rng *rand.Rand, v reflect.Value, nvals int) {
 	}
 }
 
+type zeroSource struct{}
+
+func (zeroSource) Int63() int64 { return 0 }
+func (zeroSource) Seed(int64)   {}
+func (zeroSource) Uint64() uint64 {
+	return 0
+}
+
 // ---------------------------------------------------------------------------------------------
 // method classification
 
@@ -462,7 +480,7 @@ var containerViewMethods = func() map[string]bool {
 // not accessors of one field: transitions, conversions, whole-value operations
 var nonAccessors = map[string]bool{
 	"Raw": true, "CopyState": true, "ForkSettings": true, "ProcessEpoch": true, "ProcessBlock": true,
-	"Flatten": true, "Set": true, "IsValid": true,
+	"Flatten": true, "IsValid": true,
 	// derived predicates of the bellatrix+ states (read several fields)
 	"IsExecutionEnabled": true, "IsTransitionBlock": true, "IsTransitionCompleted": true,
 	// own (non-promoted) redefinitions on sub-views
@@ -472,6 +490,7 @@ var nonAccessors = map[string]bool{
 var specials = map[string]bool{
 	"IncrementDepositIndex": true, "IncrementNextWithdrawalIndex": true, "MakeSlashed": true,
 	"RotateSyncCommittee": true, "SeedRandao": true, "AddValidator": true,
+	"Set": true, // CheckpointView.Set: replaces the whole value
 }
 
 func ownMethods(t reflect.Type) []reflect.Method {
@@ -543,6 +562,56 @@ func argBytes(rng *rand.Rand, pt reflect.Type, nvals int) ([]byte, error) {
 	return serAny(v)
 }
 
+// shareArg builds an argument for a setter from the value currently stored in the struct-side field `cur`:
+// a composite keeps a random subset of its components and gets fresh ones for the rest (mode 1), changes
+// exactly one component (mode 2) or is the stored value itself (mode 0); a basic value is kept or replaced.
+// It returns the argument's struct-side value (to keep tracking) and its bytes.
+func shareArg(rng *rand.Rand, cur reflect.Value, mode int, nvals int) (reflect.Value, []byte, error) {
+	v := reflect.New(cur.Type()).Elem()
+	v.Set(cur)
+	// deep-copy slices so that the tracked value is not aliased
+	if b, err := serAny(cur); err == nil {
+		nv := reflect.New(cur.Type())
+		if deserInto(nv, b) == nil {
+			v = nv.Elem()
+		}
+	}
+	if mode != 0 {
+		switch v.Kind() {
+		case reflect.Struct:
+			n := v.NumField()
+			one := rng.Intn(n)
+			for i := 0; i < n; i++ {
+				if (mode == 2 && i == one) || (mode == 1 && rng.Intn(2) == 0) {
+					fill(rng, v.Field(i), nvals)
+				}
+			}
+		case reflect.Slice:
+			if v.Len() > 0 && v.Type().Elem().Kind() == reflect.Uint64 {
+				v.Index(rng.Intn(v.Len())).SetUint(rng.Uint64())
+			} else {
+				fill(rng, v, nvals)
+			}
+		case reflect.Array:
+			if v.Len() > 1 && v.Type().Elem().Kind() == reflect.Uint8 && v.Type().Name() != "JustificationBits" {
+				// keep one half of the bytes
+				half := v.Len() / 2
+				for i := 0; i < half; i++ {
+					v.Index(rng.Intn(v.Len())).SetUint(uint64(rng.Intn(256)))
+				}
+			} else {
+				fill(rng, v, nvals)
+			}
+		default:
+			fill(rng, v, nvals)
+		}
+	}
+	p := reflect.New(v.Type())
+	p.Elem().Set(v)
+	b, err := serAny(p)
+	return v, b, err
+}
+
 func argFromBytes(pt reflect.Type, b []byte) (reflect.Value, error) {
 	if pt == reflect.TypeOf((*common.SyncCommitteeView)(nil)) {
 		var sc common.SyncCommittee
@@ -578,7 +647,10 @@ func gen(o hreg.Opts, w *bufio.Writer) error {
 		for _, d := range registry {
 			nvals := 1 + rng.Intn(5)
 			sp := d.newStruct()
+			fillZero = r%2 == 1 // odd rounds start from the default (all-zero) value
 			fill(rng, reflect.ValueOf(sp).Elem(), nvals)
+			fillZero = false
+			st.Add("initial-value", map[bool]string{true: "default", false: "random"}[r%2 == 1])
 			fs, err := structFields(sp)
 			if err != nil {
 				return fmt.Errorf("%s: %v", d.key, err)
@@ -617,6 +689,19 @@ func gen(o hreg.Opts, w *bufio.Writer) error {
 			emit("raw", "")
 			// writes in random order, each followed by the matching read (and a few unrelated reads)
 			perm := rng.Perm(len(sets))
+			sv := reflect.ValueOf(sp).Elem()
+			// trackable: the struct side has a field named like the setter (SetX <-> X) whose encoding is the
+			// setter's argument encoding
+			tracked := func(m reflect.Method) (reflect.Value, bool) {
+				f := sv.FieldByName(strings.TrimPrefix(m.Name, "Set"))
+				return f, f.IsValid()
+			}
+			afterSet := func(m reflect.Method) {
+				getter := strings.TrimPrefix(m.Name, "Set")
+				if _, ok := d.viewType.MethodByName(getter); ok {
+					emit("get", " %s", getter)
+				}
+			}
 			for _, i := range perm {
 				m := sets[i]
 				b, err := argBytes(rng, m.Type.In(1), nvals)
@@ -624,12 +709,33 @@ func gen(o hreg.Opts, w *bufio.Writer) error {
 					return fmt.Errorf("%s.%s: %v", d.key, m.Name, err)
 				}
 				emit("set", " %s %s", m.Name, hx(b))
-				getter := strings.TrimPrefix(m.Name, "Set")
-				if _, ok := d.viewType.MethodByName(getter); ok {
-					emit("get", " %s", getter)
+				if f, ok := tracked(m); ok {
+					if deserInto(f.Addr(), b) != nil {
+						return fmt.Errorf("%s.%s: cannot track the argument", d.key, m.Name)
+					}
 				}
+				afterSet(m)
 				if len(gets) > 0 {
 					emit("get", " %s", gets[rng.Intn(len(gets))].Name)
+				}
+			}
+			// repeated writes of the same field whose new value shares components with the stored one: the same
+			// value again, exactly one component changed, a random subset changed — for every setter
+			for _, i := range rng.Perm(len(sets)) {
+				m := sets[i]
+				f, ok := tracked(m)
+				if !ok {
+					continue
+				}
+				for _, mode := range []int{2, 0, 1, 2, 2} {
+					nv, b, err := shareArg(rng, f, mode, nvals)
+					if err != nil {
+						return fmt.Errorf("%s.%s: %v", d.key, m.Name, err)
+					}
+					st.Add("shared-component-set", []string{"same-value", "random-subset", "one-component"}[mode])
+					emit("set", " %s %s", m.Name, hx(b))
+					f.Set(nv)
+					afterSet(m)
 				}
 			}
 			for _, m := range calls {
@@ -646,6 +752,18 @@ func gen(o hreg.Opts, w *bufio.Writer) error {
 					cred[0] = byte(rng.Intn(2))
 					binary.LittleEndian.PutUint64(bal[:], uint64(rng.Int63n(40000000000)))
 					emit("call", " %s %s %s %s", m.Name, hx(pub[:]), hx(cred[:]), hx(bal[:]))
+				case "Set":
+					// whole-value replacement, sharing components with what is stored
+					cur := reflect.ValueOf(sp).Elem()
+					for _, mode := range []int{2, 0, 1, 2} {
+						nv, b, err := shareArg(rng, cur, mode, nvals)
+						if err != nil {
+							return err
+						}
+						emit("call", " Set %s", hx(b))
+						cur.Set(nv)
+						emit("raw", "")
+					}
 				case "SeedRandao":
 					var seed [32]byte
 					rng.Read(seed[:])
@@ -918,6 +1036,19 @@ func (s *session) step(f []string) string {
 			copy(pub[:], pb)
 			copy(cred[:], cb)
 			args = []reflect.Value{reflect.ValueOf(spec), reflect.ValueOf(pub), reflect.ValueOf(cred), reflect.ValueOf(common.Gwei(binary.LittleEndian.Uint64(bb)))}
+		case "Set":
+			if len(f) != 3 {
+				return "bad-op"
+			}
+			b, ok := unhx(f[2])
+			if !ok {
+				return "bad-op"
+			}
+			a, err := argFromBytes(m.Type().In(0), b)
+			if err != nil {
+				return "bad-op"
+			}
+			args = []reflect.Value{a}
 		case "SeedRandao":
 			if len(f) != 3 {
 				return "bad-op"
@@ -1155,6 +1286,9 @@ type handle struct {
 	ch   *chain.Chain
 	step *chain.Step
 	muts *[]chain.Mutant
+	// term: how the value was made (constructor line + every mutation applied since); two handles with the same
+	// term must hold the same value, whatever happened to other handles in between
+	term []string
 }
 
 type copyWorld struct {
@@ -1189,6 +1323,16 @@ func pubkey(i int) common.BLSPubkey {
 	p := common.BLSPubkey(pk.Serialize())
 	pubCache[i] = p
 	return p
+}
+
+var sigCache *common.BLSSignature
+
+func someSignature() common.BLSSignature {
+	if sigCache == nil {
+		sg := common.BLSSignature(blsu.Sign(secretKey(0), []byte("deposit placeholder message 32b!")).Serialize())
+		sigCache = &sg
+	}
+	return *sigCache
 }
 
 var forkIdx = map[string]int{"phase0": 0, "altair": 1, "bellatrix": 2, "capella": 3, "deneb": 4}
@@ -1320,6 +1464,7 @@ func (cw *copyWorld) step(f []string) (string, bool) {
 		if _, ok := cw.h[f[1]]; !ok {
 			cw.order = append(cw.order, f[1])
 		}
+		h.term = []string{strings.Join(append([]string{f[0]}, f[2:]...), " ")}
 		cw.h[f[1]] = h
 		return "ok", true
 	case "chain":
@@ -1357,7 +1502,8 @@ func (cw *copyWorld) step(f []string) (string, bool) {
 		if step == nil {
 			return "err", true
 		}
-		h := &handle{state: chain.WrapState(step.Pre), epc: chain.CopyEpc(step.PreEpc), spec: c.Spec, ch: c, step: step, muts: new([]chain.Mutant)}
+		h := &handle{state: chain.WrapState(step.Pre), epc: chain.CopyEpc(step.PreEpc), spec: c.Spec, ch: c, step: step, muts: new([]chain.Mutant),
+			term: []string{strings.Join(append([]string{f[0]}, f[2:]...), " ")}}
 		if _, ok := cw.h[f[1]]; !ok {
 			cw.order = append(cw.order, f[1])
 		}
@@ -1375,7 +1521,8 @@ func (cw *copyWorld) step(f []string) (string, bool) {
 		if err != nil {
 			return "err", true
 		}
-		b := &handle{state: &beacon.StandardUpgradeableBeaconState{BeaconState: cs}, epc: a.epc.Clone(), spec: a.spec, ch: a.ch, step: a.step, muts: a.muts}
+		b := &handle{state: &beacon.StandardUpgradeableBeaconState{BeaconState: cs}, epc: a.epc.Clone(), spec: a.spec, ch: a.ch, step: a.step, muts: a.muts,
+			term: append([]string(nil), a.term...)}
 		if _, ok := cw.h[f[2]]; !ok {
 			cw.order = append(cw.order, f[2])
 		}
@@ -1384,6 +1531,54 @@ func (cw *copyWorld) step(f []string) (string, bool) {
 			return "ok same-as=" + f[1], true
 		}
 		return "ok DIFFERENT-FROM=" + f[1], true
+	case "fresh":
+		// fresh a r: a copy of the state with a context computed from scratch (nothing shared): the reference
+		// against which a copy with a cloned context is compared after both went through the same operations
+		if len(f) != 3 {
+			return "bad-op", true
+		}
+		a, ok := cw.h[f[1]]
+		if !ok || f[1] == f[2] {
+			return "bad-op", true
+		}
+		cs, err := a.state.BeaconState.CopyState()
+		if err != nil {
+			return "err", true
+		}
+		epc, err := common.NewEpochsContext(a.spec, cs)
+		if err != nil {
+			return "err", true
+		}
+		if sc, ok := cs.(common.SyncCommitteeBeaconState); ok {
+			if err := epc.LoadSyncCommittees(sc); err != nil {
+				return "err", true
+			}
+		}
+		b := &handle{state: &beacon.StandardUpgradeableBeaconState{BeaconState: cs}, epc: epc, spec: a.spec, ch: a.ch, step: a.step, muts: a.muts,
+			term: append([]string(nil), a.term...)}
+		if _, ok := cw.h[f[2]]; !ok {
+			cw.order = append(cw.order, f[2])
+		}
+		cw.h[f[2]] = b
+		return "ok", true
+	case "same":
+		// same x y: two handles made the same way hold the same state (bytes and root)
+		if len(f) != 3 {
+			return "bad-op", true
+		}
+		a, ok1 := cw.h[f[1]]
+		b, ok2 := cw.h[f[2]]
+		if !ok1 || !ok2 {
+			return "bad-op", true
+		}
+		if strings.Join(a.term, ";") != strings.Join(b.term, ";") {
+			return "ok incomparable", true
+		}
+		oa, ob := observe(a), observe(b)
+		if oa.bytes == ob.bytes && oa.root == ob.root {
+			return "ok equal", true
+		}
+		return "ok DIFFERENT", true
 	case "mut":
 		if len(f) < 3 {
 			return "bad-op", true
@@ -1402,6 +1597,7 @@ func (cw *copyWorld) step(f []string) (string, bool) {
 		} else if r == "bad-op" {
 			return r, true
 		}
+		h.term = append(h.term, strings.Join(f[2:], " "))
 		// a mutation the real code refuses (full list, index out of range, …) may have been applied partly:
 		// either way the other handles must be what they were
 		var same []string
@@ -1529,6 +1725,14 @@ func mutate(h *handle, a []string) string {
 			return "err"
 		}
 		h.epc.ValidatorPubkeyCache = pc
+	case a[0] == "dep" && len(a) == 3:
+		// the real deposit processing (proof and signature checks off): a new validator for an unknown key, a
+		// top-up for a key the (shared, possibly forked) pubkey cache knows at an index inside this registry
+		dep := &common.Deposit{Data: common.DepositData{Pubkey: pubkey(5000 + int(u(a[1]))), WithdrawalCredentials: common.Root{0xaa, byte(u(a[1]))}, Amount: common.Gwei(u(a[2])),
+			Signature: someSignature()}} // must deserialise (its validity is not checked with the flag below)
+		if err := phase0.ProcessDeposit(h.spec, h.epc, st, dep, true); err != nil {
+			return "err"
+		}
 	case a[0] == "eth1vote" && len(a) == 2:
 		votes, err := st.Eth1DataVotes()
 		if err != nil {
@@ -1655,8 +1859,68 @@ func balVal(rng *rand.Rand) uint64 {
 	return rng.Uint64() >> 10
 }
 
+// genDeposits: a state copy with a cloned context and the original take CONFLICTING deposit histories (the
+// original registers key A at index n, the copy key B at index n, then the copy deposits A …); the copy must
+// end up exactly like a reference copy with a context computed from scratch that saw the same deposits while
+// nobody else did anything.
+func genDeposits(o hreg.Opts, rng *rand.Rand, w *bufio.Writer) {
+	st := o.Stats
+	n := o.Pick(10, 150)
+	forks := []string{"phase0", "altair", "bellatrix", "capella", "deneb"}
+	amounts := []uint64{32000000000, 17000000000, 1000000000, 31000000000, 40000000000}
+	for i := 0; i < n; i++ {
+		fmt.Fprintln(w, "reset")
+		if i%3 == 2 {
+			fmt.Fprintf(w, "chain a fast@1,2,3,4 32 deposits %d %d\n", rng.Intn(1000), 3+rng.Intn(36))
+			st.Add("deposit-conflict-base", "chain")
+		} else {
+			fmt.Fprintf(w, "live a %s %d\n", forks[i%len(forks)], rng.Int63n(1000))
+			st.Add("deposit-conflict-base", "kickstart-"+forks[i%len(forks)])
+		}
+		fmt.Fprintln(w, "copy a b")
+		fmt.Fprintln(w, "fresh a r")
+		// what the original does (only to `a`): registers keys the copy will meet later, in its own order
+		keys := rng.Perm(6)
+		na := 1 + rng.Intn(3)
+		for _, k := range keys[:na] {
+			fmt.Fprintf(w, "mut a dep %d %d\n", k, amounts[rng.Intn(len(amounts))])
+		}
+		if rng.Intn(3) == 0 {
+			fmt.Fprintf(w, "mut a slots %d\n", 1+rng.Intn(9))
+		}
+		// what the copy and the reference both do: first a key the original did NOT use at that index (conflict),
+		// then keys the original used, top-ups of both, slots in between
+		var seq []string
+		other := keys[na:]
+		seq = append(seq, fmt.Sprintf("dep %d %d", other[0], amounts[rng.Intn(len(amounts))]))
+		for _, k := range keys[:na] {
+			seq = append(seq, fmt.Sprintf("dep %d %d", k, amounts[rng.Intn(len(amounts))]))
+		}
+		for j := 0; j < 2+rng.Intn(4); j++ {
+			switch rng.Intn(4) {
+			case 0:
+				seq = append(seq, fmt.Sprintf("slots %d", []int{1, 8, 9}[rng.Intn(3)]))
+			default:
+				seq = append(seq, fmt.Sprintf("dep %d %d", rng.Intn(8), amounts[rng.Intn(len(amounts))]))
+			}
+		}
+		st.Add("deposit-conflict-len", strconv.Itoa(len(seq)))
+		for _, op := range seq {
+			// interleave: the same operation on the copy and on the reference, in either order
+			if rng.Intn(2) == 0 {
+				fmt.Fprintf(w, "mut b %s\nmut r %s\n", op, op)
+			} else {
+				fmt.Fprintf(w, "mut r %s\nmut b %s\n", op, op)
+			}
+			fmt.Fprintln(w, "same b r")
+		}
+		fmt.Fprintln(w, "same a b") // different histories: not comparable
+	}
+}
+
 func genCopies(o hreg.Opts, rng *rand.Rand, w *bufio.Writer) {
 	genSiblings(o, rng, w)
+	genDeposits(o, rng, w)
 	st := o.Stats
 	n := o.Pick(25, 500)
 	forks := []string{"phase0", "altair", "bellatrix", "capella", "deneb"}
